@@ -41,6 +41,8 @@ inductive Site
   | popHead        -- lock.go:1155    cur.data[4:i] beyond cap
   | pipelineBuf    -- lock.go:1080    Data[GetValueOffset():]
   | pipelineLen    -- (repaired, 639fbf7) buf[index+1..3] — the loop now needs 4 length bytes
+  | decodeCmdSlice -- command.go DecodeLockCommand: self.Data[valueOffset:valueOffset+64]
+  | decodeDataSlice -- command.go DecodeLockCommand: self.Data[valueOffset+68:valueOffset+dataLen+68]
   | fuel           -- model artefact: recursion budget exhausted (proved unreachable from `processFrame`)
   deriving DecidableEq, Repr, Inhabited
 
